@@ -9,7 +9,8 @@ workers are created).  The C statement each value stands for is quoted next to i
 
 Threads are natural numbers.  Thread `0` is the thread that calls `m_thpool_new` and later
 `m_thpool_free`; any other thread becomes a *submitter* by its first `addCall` and a *worker* by
-being the target of a `create`.  There is no bound on the number of threads or tasks: program
+being the target of a `create`.  A worker may call `m_thpool_add` itself from inside the task it is
+running (program counters `n…`), at any time — also while `m_thpool_free` is in progress.  There is no bound on the number of threads or tasks: program
 counters and per-task records are total functions, the labels name the thread that moves and every
 nondeterministic choice (which waiter a signal wakes, the identity of a created thread / submitted
 task, whether `pthread_create` fails, spurious wake-ups), so `step` is a function and a recorded
@@ -48,8 +49,9 @@ inductive Pc
   | wDone         -- the start routine has returned
   /- m_thpool_add -/
   | sIdle         -- between two calls
-  | sAssert       -- M_THREADS_ASSERT: pool->shutdown == SHUTDOWN_NO (read without the lock)
   | sLock         -- pthread_mutex_lock(&pool->lock)
+  | sShutChk      -- M_SHUTDOWN_ASSERT_LOCKED: if (pool->shutdown != SHUTDOWN_NO)        (read with the lock held)
+  | sPermUnlock   --     { pthread_mutex_unlock(&pool->lock); return -EPERM; }
   | sLazy0        -- if (flags & LAZY) if (!(pool->running_tasks             (atomic load; clang evaluates it first)
   | sLazy1        --                         < m_list_len(pool->threads))
   | sLazy2        --                       && m_list_len(pool->threads) < pool->max_threads)
@@ -62,6 +64,9 @@ inductive Pc
   | sRetOk        -- return 0
   | sRetPerm      -- return -EPERM
   | sRetFail      -- return ret  (error of pthread_create)
+  /- m_thpool_add called by a worker from inside the task it is running (same statements; it returns into the task) -/
+  | nLock | nShutChk | nPermUnlock | nLazy0 | nLazy1 | nLazy2 | nCreate | nInsert | nFailUnlock | nEnq | nSignal | nUnlock
+  | nRetOk | nRetPerm | nRetFail
   /- m_thpool_new (thread 0) -/
   | mNewCreate    -- add_threads(pool, thread_count): pthread_create(...)       (eager pools only)
   | mNewInsert    --                                  m_list_insert(pool->threads, th); pool->alive++
@@ -134,7 +139,8 @@ structure Label where
 structure State where
   cfg : Cfg
   pc : Tid → Pc
-  cur : Tid → TaskId            -- local: the task being added / executed
+  cur : Tid → TaskId            -- local: the task being added (submitters) / executed (workers)
+  addK : Tid → TaskId           -- local: the task a worker is adding from inside its task
   newTh : Tid → Tid             -- local: `th` in add_threads
   rd : Tid → Nat                -- local: the value of `running_tasks` loaded in has_space
   lockOwner : Option Tid
@@ -165,7 +171,7 @@ theorem upd_apply {α : Type} (f : Nat → α) (k x : Nat) (v : α) : upd f k v 
 /-- the state in which thread 0 enters `m_thpool_new` (after the allocations, which do not matter here) -/
 def init (c : Cfg) : State :=
   { cfg := c, pc := upd (fun _ => Pc.none) 0 (if c.isLazy then .mNewRet else .mNewCreate),
-    cur := fun _ => 0, newTh := fun _ => 0, rd := fun _ => 0, lockOwner := none, waiters := [], tasks := [],
+    cur := fun _ => 0, addK := fun _ => 0, newTh := fun _ => 0, rd := fun _ => 0, lockOwner := none, waiters := [], tasks := [],
     shutdown := .no, threads := [], alive := 0, running := 0, task := fun _ => {}, idx := 0, mode := false,
     joinRest := [], newFailed := false, workers := [], pendBy := none, adding := [],
     condDestroyed := false, mutexDestroyed := false, poolFreed := false }
@@ -219,6 +225,9 @@ def step (s : State) (l : Label) : Option State :=
   | .wInTask => match l.act with
     | .taskEnd k => if k = s.cur t then
         some { s.goto t .wDec with task := upd s.task k ({ s.task k with finished := true }) } else none
+    | .addCall k a => if (s.task k).submitted = false then
+        some { s.goto t .nLock with addK := upd s.addK t k, task := upd s.task k ({ s.task k with submitted := true, arg := a, subBy := t }) }
+      else none
     | _ => none
   | .wDec => match l.act with
     | .tau => some { s.goto t .wLock with running := s.running - 1 }
@@ -239,15 +248,17 @@ def step (s : State) (l : Label) : Option State :=
   /- ---------------------------------- m_thpool_add ----------------------------------- -/
   | .none | .sIdle => match l.act with
     | .addCall k a => if t ≠ 0 ∧ (s.task k).submitted = false then
-        some { s.goto t .sAssert with cur := upd s.cur t k, adding := t :: s.adding, task := upd s.task k ({ s.task k with submitted := true, arg := a, subBy := t }) }
+        some { s.goto t .sLock with cur := upd s.cur t k, adding := t :: s.adding, task := upd s.task k ({ s.task k with submitted := true, arg := a, subBy := t }) }
       else none
     | _ => none
-  | .sAssert => match l.act with
-    | .tau => some (s.goto t (if s.shutdown = .no then .sLock else .sRetPerm))
-    | _ => none
   | .sLock => match l.act with
-    | .lock => if s.lockOwner = none then
-        some { s.goto t (if s.cfg.isLazy then .sLazy0 else .sEnq) with lockOwner := some t } else none
+    | .lock => if s.lockOwner = none then some { s.goto t .sShutChk with lockOwner := some t } else none
+    | _ => none
+  | .sShutChk => match l.act with
+    | .tau => some (s.goto t (if s.shutdown = .no then (if s.cfg.isLazy then .sLazy0 else .sEnq) else .sPermUnlock))
+    | _ => none
+  | .sPermUnlock => match l.act with
+    | .unlock => some { s.goto t .sRetPerm with lockOwner := none }
     | _ => none
   | .sLazy0 => match l.act with
     | .tau => some { s.goto t .sLazy1 with rd := upd s.rd t s.running }
@@ -290,6 +301,58 @@ def step (s : State) (l : Label) : Option State :=
     | _ => none
   | .sRetFail => match l.act with
     | .addRet c => if c = EAGAIN then some { s.goto t .sIdle with adding := s.adding.erase t } else none
+    | _ => none
+  /- ------------------------ m_thpool_add from inside a task -------------------------- -/
+  | .nLock => match l.act with
+    | .lock => if s.lockOwner = none then some { s.goto t .nShutChk with lockOwner := some t } else none
+    | _ => none
+  | .nShutChk => match l.act with
+    | .tau => some (s.goto t (if s.shutdown = .no then (if s.cfg.isLazy then .nLazy0 else .nEnq) else .nPermUnlock))
+    | _ => none
+  | .nPermUnlock => match l.act with
+    | .unlock => some { s.goto t .nRetPerm with lockOwner := none }
+    | _ => none
+  | .nLazy0 => match l.act with
+    | .tau => some { s.goto t .nLazy1 with rd := upd s.rd t s.running }
+    | _ => none
+  | .nLazy1 => match l.act with
+    | .tlen n => if n = s.threads.length then some (s.goto t (if s.rd t < s.threads.length then .nEnq else .nLazy2)) else none
+    | _ => none
+  | .nLazy2 => match l.act with
+    | .tlen n => if n = s.threads.length then some (s.goto t (if s.threads.length < s.cfg.maxThreads then .nCreate else .nEnq)) else none
+    | _ => none
+  | .nCreate => match l.act with
+    | .create j => if j ≠ 0 ∧ s.pc j = .none then
+        some { s with pc := upd (upd s.pc j .wLock) t .nInsert, newTh := upd s.newTh t j, workers := j :: s.workers, pendBy := some t } else none
+    | .createFail => some (s.goto t .nFailUnlock)
+    | _ => none
+  | .nInsert => match l.act with
+    | .tins j => if j = s.newTh t then
+        some { s.goto t .nEnq with threads := j :: s.threads, alive := s.alive + 1, pendBy := none } else none
+    | _ => none
+  | .nFailUnlock => match l.act with
+    | .unlock => some { s.goto t .nRetFail with lockOwner := none }
+    | _ => none
+  | .nEnq => match l.act with
+    | .enq k => if k = s.addK t then
+        some { s.goto t .nSignal with tasks := s.tasks ++ [k], task := upd s.task k ({ s.task k with accepted := true }) }
+      else none
+    | _ => none
+  | .nSignal => match l.act with
+    | .signal none => if s.waiters = [] then some (s.goto t .nUnlock) else none
+    | .signal (some w) => if w ∈ s.waiters then some { s.goto t .nUnlock with waiters := s.waiters.erase w } else none
+    | _ => none
+  | .nUnlock => match l.act with
+    | .unlock => some { s.goto t .nRetOk with lockOwner := none }
+    | _ => none
+  | .nRetOk => match l.act with
+    | .addRet c => if c = 0 then some (s.goto t .wInTask) else none
+    | _ => none
+  | .nRetPerm => match l.act with
+    | .addRet c => if c = EPERM then some (s.goto t .wInTask) else none
+    | _ => none
+  | .nRetFail => match l.act with
+    | .addRet c => if c = EAGAIN then some (s.goto t .wInTask) else none
     | _ => none
   /- ---------------------------------- m_thpool_new ----------------------------------- -/
   | .mNewCreate => match l.act with
@@ -368,7 +431,7 @@ live handle (`m_thpool_new` has returned it and `m_thpool_free` has not been cal
 `m_thpool_free` may only be called when no `m_thpool_add` is in progress. -/
 def pre (s : State) (l : Label) : Bool :=
   match l.act with
-  | .addCall _ _ => s.pc 0 == .mIdle
+  | .addCall _ _ => s.pc 0 == .mIdle || s.pc l.tid == .wInTask      -- (a running task keeps its pool alive)
   | .freeCall _ => s.adding.isEmpty
   | _ => true
 
@@ -395,7 +458,7 @@ def accept (s : State) (ls : List Label) (i : Nat := 0) : State ⊕ Nat :=
 /-- program counters at which a thread's next step is not a library call -/
 def isTauPc (s : State) (t : Tid) : Bool :=
   match s.pc t with
-  | .wBreakChk | .wInc | .wDec | .wExitDec | .sAssert | .sLazy0 | .fSetShut | .fAliveChk | .fJoinInit => true
+  | .wBreakChk | .wInc | .wDec | .wExitDec | .sShutChk | .sLazy0 | .nShutChk | .nLazy0 | .fSetShut | .fAliveChk | .fJoinInit => true
   | .fJoin => s.joinRest.isEmpty
   | _ => false
 
